@@ -61,11 +61,169 @@ fn well_formed(ops: &[(String, Quant)]) -> Result<(), String> {
     Ok(())
 }
 
+/// what every lookup of the three tables answers, as one string; `order` picks the table to start with and the direction
+pub fn fingerprint(order: usize) -> String {
+    let mut parts: [String; 3] = [String::new(), String::new(), String::new()];
+    let nums: Vec<u32> = if (order / 3) % 2 == 0 { (0..=260u32).rev().collect() } else { (0..=260u32).collect() };
+    for k in 0..3 {
+        let t = (order + k) % 3;
+        let mut o = String::new();
+        match t {
+            0 => {
+                for &n in &nums {
+                    o.push_str(g::OpenCLStd100InstructionTable::lookup_opcode(n).map_or("-", |e| e.opname));
+                    o.push(';');
+                }
+            }
+            1 => {
+                for &n in &nums {
+                    o.push_str(g::GlslStd450InstructionTable::lookup_opcode(n).map_or("-", |e| e.opname));
+                    o.push(';');
+                }
+            }
+            _ => {
+                let core: Vec<u16> = if (order / 3) % 2 == 0 { (0..=7000u16).rev().collect() } else { (0..=7000u16).collect() };
+                for n in core {
+                    o.push_str(g::CoreInstructionTable::lookup_opcode(n).map_or("-", |e| e.opname));
+                    o.push(';');
+                }
+            }
+        }
+        parts[t] = o;
+    }
+    // direction-independent form: the per-number answers sorted back into ascending order
+    let norm = |s: &str, rev: bool| -> String {
+        let mut v: Vec<&str> = s.split(';').filter(|x| !x.is_empty()).collect();
+        if rev {
+            v.reverse();
+        }
+        v.join(";")
+    };
+    let rev = (order / 3) % 2 == 0;
+    format!("{}|{}|{}", norm(&parts[0], rev), norm(&parts[1], rev), norm(&parts[2], rev))
+}
+
+/// `vcheck --c09-first-use`: 16 threads released together make the FIRST grammar lookups of this process; each prints
+/// the fingerprint of what it was answered
+pub fn first_use_probe() {
+    let n = 16;
+    // a spinning barrier: the threads leave it within nanoseconds of each other (a blocking barrier wakes them one by one)
+    let arrived = std::sync::Arc::new(std::sync::atomic::AtomicUsize::new(0));
+    let hs: Vec<_> = (0..n)
+        .map(|i| {
+            let a = arrived.clone();
+            std::thread::spawn(move || {
+                a.fetch_add(1, std::sync::atomic::Ordering::AcqRel);
+                while a.load(std::sync::atomic::Ordering::Acquire) < n {
+                    std::hint::spin_loop();
+                }
+                // first: every entry of one table (thread i: table i % 3), LAST entry first, must be found under its own
+                // number at once (iter() only reads the static table)
+                let mut early = String::new();
+                match i % 3 {
+                    0 => {
+                        let t: Vec<_> = g::OpenCLStd100InstructionTable::iter().collect();
+                        for e in t.iter().rev() {
+                            if g::OpenCLStd100InstructionTable::lookup_opcode(e.opcode).map(|x| x.opname) != Some(e.opname) {
+                                early = format!("OpenCL.std {} ({}) not found by the first lookups of thread {}", e.opcode, e.opname, i);
+                                break;
+                            }
+                        }
+                    }
+                    1 => {
+                        let t: Vec<_> = g::GlslStd450InstructionTable::iter().collect();
+                        for e in t.iter().rev() {
+                            if g::GlslStd450InstructionTable::lookup_opcode(e.opcode).map(|x| x.opname) != Some(e.opname) {
+                                early = format!("GLSL.std.450 {} ({}) not found by the first lookups of thread {}", e.opcode, e.opname, i);
+                                break;
+                            }
+                        }
+                    }
+                    _ => {
+                        let t: Vec<_> = g::CoreInstructionTable::iter().collect();
+                        for e in t.iter().rev() {
+                            if g::CoreInstructionTable::lookup_opcode(e.opcode as u16).map(|x| x.opname) != Some(e.opname) {
+                                early = format!("core opcode {} ({}) not found by the first lookups of thread {}", e.opcode as u16, e.opname, i);
+                                break;
+                            }
+                        }
+                    }
+                }
+                if !early.is_empty() {
+                    return format!("EARLY {}", early);
+                }
+                fingerprint(i)
+            })
+        })
+        .collect();
+    for h in hs {
+        match h.join() {
+            Ok(f) => println!("{}", f),
+            Err(_) => println!("PANIC"),
+        }
+    }
+}
+
 pub fn run(tier: Tier) -> Run {
     let gd = golden();
     let mut run = Run::new("C09", tier, "exploration");
     let mut evals = 0u64;
     let mut nontrivial = 0u64;
+    // 0. SUPPLEMENTARY, SAMPLED (not exhaustive, decides nothing by itself): fresh processes in which 16 threads make the
+    //    first lookups of the process at the same moment; every thread must be answered exactly what a single thread is
+    //    answered later. The tables of the tree as it stands are immutable statics; this only guards against a lazily
+    //    built index being published before it is complete. (The schedules are whatever the OS produces.)
+    {
+        let want = fingerprint(3);
+        let runs = tier.pick(150, 1500);
+        let exe = std::env::current_exe().ok();
+        let mut bad = 0u64;
+        let mut done = 0u64;
+        if let Some(exe) = exe {
+            use rayon::prelude::*;
+            // one process at a time: its 16 threads get the 16 cores to themselves
+            let outs: Vec<Option<String>> = (0..runs).map(|_| std::process::Command::new(&exe).arg("--c09-first-use").output().ok().map(|o| String::from_utf8_lossy(&o.stdout).to_string())).collect();
+            for o in outs.into_iter().flatten() {
+                done += 1;
+                for (ti, line) in o.lines().enumerate() {
+                    if line != want {
+                        bad += 1;
+                        if bad <= 2 {
+                            let pos = line.split(';').zip(want.split(';')).position(|(a, b)| a != b);
+                            run.add(viol("C09:concurrent-first-use", format!("in a fresh process, thread {} of 16 making the first lookups concurrently was answered differently from a single thread (first differing answer at position {:?}: {:?})", ti, pos, pos.and_then(|p| line.split(';').nth(p))), json!({"kind": "c09-first-use"})));
+                        }
+                    }
+                }
+            }
+        }
+        run.outcome("sampled_concurrent_first_use_processes", done);
+        evals += done * 16;
+    }
+    // 0b. repetition: the same declared number looked up 300 times (and a few 70 000 times), then its neighbours: a lookup
+    //     must not depend on how often an entry was used before
+    {
+        let tables: [(&str, Vec<u32>, Box<dyn Fn(u32) -> Option<&'static str> + Sync>); 3] = [
+            ("OpenCL.std", gd.opencl.iter().map(|e| e.opcode).collect(), Box::new(|n| g::OpenCLStd100InstructionTable::lookup_opcode(n).map(|e| e.opname))),
+            ("GLSL.std.450", gd.glsl.iter().map(|e| e.opcode).collect(), Box::new(|n| g::GlslStd450InstructionTable::lookup_opcode(n).map(|e| e.opname))),
+            ("core", gd.insts.iter().map(|i| i.opcode as u32).collect(), Box::new(|n| if n <= 0xFFFF { g::CoreInstructionTable::lookup_opcode(n as u16).map(|e| e.opname) } else { None })),
+        ];
+        for (tn, declared, look) in &tables {
+            let sequential: std::collections::HashMap<u32, Option<&'static str>> = declared.iter().flat_map(|&n| [n.wrapping_sub(1), n, n + 1]).map(|n| (n, look(n))).collect();
+            for (i, &n) in declared.iter().enumerate() {
+                let reps = if i % 40 == 0 { 70_000 } else { 300 };
+                for _ in 0..reps {
+                    let _ = look(n);
+                }
+                evals += reps as u64;
+                for m in [n + 1, n.wrapping_sub(1), n] {
+                    let got = look(m);
+                    if got != sequential[&m] {
+                        run.add(viol(format!("C09:{}:after-repetition", tn), format!("{}: lookup_opcode({}) after {} lookups of {} gives {:?}, otherwise {:?}", tn, m, reps, n, got, sequential[&m]), json!({"kind": "c09-repetition", "table": tn, "repeated": n, "then": m, "times": reps})));
+                    }
+                }
+            }
+        }
+    }
 
     // 1. all 65 536 opcode numbers
     for n in 0..=u16::MAX {
